@@ -21,6 +21,7 @@ use std::{
 
 mod ext;
 mod gen;
+mod net;
 mod run;
 mod tasks;
 
@@ -148,7 +149,7 @@ struct Pool {
 
 /// kinds that only the feature worker can run
 fn needs_features(proto: &[u64]) -> bool {
-    matches!(proto.first(), Some(18) | Some(19) | Some(9918))
+    matches!(proto.first(), Some(18) | Some(19) | Some(25) | Some(9918))
 }
 
 /// The feature worker is a generated one-file crate (source: src/c19/xworker.rs) so that the other
@@ -261,17 +262,29 @@ pub fn main(args: &Args) {
     } else if let Some(d) = args.str("corpus") {
         stored = read_cases(Path::new(d));
     }
+    // fail fast: once this many cases have ended in a panic, an abort or a hang the verdict is
+    // settled (every one of them is a failing input); a globally broken decoder would otherwise
+    // cost the watchdog time on every remaining case
+    const MAX_BAD: usize = 12;
+    let mut bad = 0usize;
+    let is_bad = |t: &[u64]| matches!(t, [m] if *m == PANIC_MARK || *m == ABORT_MARK || *m == TIMEOUT_MARK);
     for c in stored.iter() {
         let proto = run::case_as_proto(c);
         let (c, t) = pool.exec(&proto);
         out.emit(&c, &t);
+        bad += is_bad(&t) as usize;
     }
     if args.str("replay").is_some() {
         return;
     }
     for proto in gen::systematic(thorough) {
+        if bad >= MAX_BAD {
+            eprintln!("c19: {bad} cases panicked / aborted / hung: stopping early");
+            return;
+        }
         let (c, t) = pool.exec(&proto);
         out.emit(&c, &t);
+        bad += is_bad(&t) as usize;
     }
     // TLS certificates and the WebRTC codec need the feature worker: thorough tier (or C19_FEATURES=1)
     let mut tls_seed: Option<Vec<u8>> = None;
@@ -281,8 +294,12 @@ pub fn main(args: &Args) {
             tls_seed = Some(t[1..].iter().map(|x| *x as u8).collect());
         }
         for proto in gen::feature_systematic(tls_seed.as_deref()) {
+            if bad >= MAX_BAD {
+                return;
+            }
             let (c, t) = pool.exec(&proto);
             out.emit(&c, &t);
+            bad += is_bad(&t) as usize;
         }
     }
     let featured = pool.xbin.clone().flatten().is_some() && (thorough || std::env::var_os("C19_FEATURES").is_some());
@@ -290,7 +307,12 @@ pub fn main(args: &Args) {
     for _ in 0..ncases {
         let mut r = rng.fork();
         let proto = if featured && r.chance(4) { gen::feature_random(&mut r, tls_seed.as_deref()) } else { gen::random_case(&mut r) };
+        if bad >= MAX_BAD {
+            eprintln!("c19: {bad} cases panicked / aborted / hung: stopping early");
+            return;
+        }
         let (c, t) = pool.exec(&proto);
         out.emit(&c, &t);
+        bad += is_bad(&t) as usize;
     }
 }
